@@ -24,6 +24,7 @@ THEOREMS = [
     "PV.C17.repr_integer_dot_zero",
     "PV.C17.isInteger_cases",
     "PV.C17.repr_roundtrip_partial",
+    "PV.C17.repr_roundtrip_integer",
     "PV.C17.repr_roundtrip_fails",
     "PV.C17.hex_eq_py_partial",
     "PV.C17.hex_eq_py_fails",
@@ -50,6 +51,7 @@ THEOREMS = [
     "PV.Dec.expDigits_length",
     "PV.Dec.ilog2_scale2",
     "PV.Dec.ofRat_pow2",
+    "PV.Dec.ofRat_ten",
     "PV.C17.hexfConvert_exact",
     "PV.C17.hexFacts_all",
 ]
@@ -69,7 +71,8 @@ PARTIAL = [
     "back through ofDecimal; an is_integer value is recovered from its one-decimal rendering; a non-is_integer value "
     "has digits after the point). These are facts about digit generation (PV.Dec), evaluated by the driver on every "
     "sampled finite double of the run (coverage.dec_facts: all hold except at +-0.9999999999999999), not proved for "
-    "all 2^64 patterns. What IS proved for all doubles: the notation decision, the layouts, the exponent suffix and "
+    "all 2^64 patterns (for integer-valued doubles in the fixed range the round trip IS proved unconditionally: "
+    "repr_roundtrip_integer, repr_integer_dot_zero). What IS proved for all doubles: the notation decision, the layouts, the exponent suffix and "
     "that the parser (trim, underscore stripping, grammar scanner, exponent reader) inverts each layout.",
     "'is a shortest such rendering' is inherited from Rust's {:e}/Display (Grisu/Dragon) = PV.Dec.shortest; minimality "
     "of PV.Dec.shortest is not proved in Lean, it is compared with CPython's repr digit count on every sampled double.",
